@@ -240,11 +240,111 @@ def _check_scope(ctx, r, name):
             if any(x[0] == "call" and x[1].endswith("core::mem::take") and x[2] in save_bbs for x in fl.sources(src["l"])):
                 restore_blocks.add(b)
         last_t = tb[-1]
+        # abstract walk over {is `injecting_*` empty?}: whatever this scope left pending must be drained before
+        # the restore overwrites it (expression bodies only: a block body drains through its own statement list)
+        lost = _abstract_drain_check(ctx, mb, g, fl, last_t, name, restore_blocks)
+        if lost:
+            r.ob(key, False, C.mloc(mb, mb),
+                 "with `%s` non-empty after the child traversal (%s) the restore in bb%d is reached without draining it: those declarations are silently dropped" % (name, lost[1], lost[0]))
+            continue
         if restore_blocks and g.must_pass(restore_blocks, start=last_t):
             r.ob(key, True, C.mloc(mb, saves[0][1]), "take in bb%d dominates the traversal; the saved list is stored back on every path to return (bb%s)" % (saves[0][0], sorted(restore_blocks)))
         else:
             e = g.escaping_exit(restore_blocks, start=last_t) if restore_blocks else None
             r.ob(key, False, C.mloc(mb, saves[0][1]), "the saved list is not restored on every path (%s): an outer pending declaration is lost" % ("return bb%s escapes" % e if e is not None else "no restore store"))
+
+
+PENDING = ("injecting_vars", "injecting_consts")
+
+
+def _bool_expr(mb, fl, local, depth=0):
+    """('empty', field) | ('not', e) | None for a bool local"""
+    if depth > 6:
+        return None
+    for kind, bb, d in fl.defs.get(local, []):
+        if kind == "call":
+            if callee_name(d).endswith("::is_empty") and d["args"]:
+                fs = {first_field(f) for f in self_field_of(fl.op_sources(d["args"][0]))}
+                for f in fs:
+                    if f in PENDING:
+                        return ("empty", f)
+            return None
+        rv = d["rv"]
+        if rv.get("rk") == "unop" and rv.get("op") == "Not":
+            p = place_of(rv["a"])
+            inner = _bool_expr(mb, fl, p["l"], depth + 1) if p else None
+            return ("not", inner) if inner else None
+        if rv.get("rk") == "use":
+            p = place_of(rv["op"])
+            if p and not p.get("p"):
+                return _bool_expr(mb, fl, p["l"], depth + 1)
+    return None
+
+
+def _eval(e, state):
+    if e[0] == "empty":
+        return state[e[1]]
+    return not _eval(e[1], state)
+
+
+def _abstract_drain_check(ctx, mb, g, fl, start, name, restore_blocks):
+    import itertools
+    for init in itertools.product([True, False], repeat=len(PENDING)):
+        state0 = dict(zip(PENDING, init))
+        if state0[name]:
+            continue
+        seen = set()
+        st = [(s, tuple(sorted(state0.items()))) for s in g.succ[start]]
+        while st:
+            b, stt = st.pop()
+            if (b, stt) in seen:
+                continue
+            seen.add((b, stt))
+            state = dict(stt)
+            blk = mb["blocks"][b]
+            if b in restore_blocks:
+                # is this the restore of `name`?
+                for s in blk["stmts"]:
+                    if s["k"] == "assign" and "*" in (s["lhs"].get("p") or []) and name in {first_field(f) for f in self_field_of(fl.place_sources(s["lhs"]))}:
+                        if not state[name]:
+                            return (b, ", ".join("%s %s" % (k, "empty" if v else "non-empty") for k, v in sorted(state0.items())))
+            t = blk.get("term") or {}
+            if t.get("k") == "call" and callee_name(t).endswith("core::mem::take") and t["args"]:
+                for f in {first_field(f) for f in self_field_of(fl.op_sources(t["args"][0]))}:
+                    if f in state:
+                        state[f] = True
+            nxt = g.succ[b]
+            if t.get("k") == "switch":
+                p = place_of(t["discr"])
+                e = _bool_expr(mb, fl, p["l"]) if p and not p.get("p") else None
+                if e is not None:
+                    val = 1 if _eval(e, state) else 0
+                    tg = [bb for v, bb in t["targets"] if v == val]
+                    nxt = tg if tg else [t["otherwise"]]
+                else:
+                    # discriminant of the node itself: only the expression-body arm needs the wrap
+                    arms = _expr_arm_only(mb, blk, t, fl)
+                    if arms is not None:
+                        nxt = arms
+            for n2 in nxt:
+                st.append((n2, tuple(sorted(state.items()))))
+    return None
+
+
+def _expr_arm_only(mb, blk, t, fl):
+    p = place_of(t["discr"])
+    if not p:
+        return None
+    for s in blk["stmts"]:
+        if s["k"] == "assign" and s["lhs"]["l"] == p["l"] and s["rv"].get("rk") == "discr":
+            pl = s["rv"]["place"]
+            on_node = pl["l"] == 2 or any(x[0] == "param" and x[1] == 2 for x in fl.place_sources(pl))
+            if on_node and s["rv"].get("adt", "").endswith("BlockStmtOrExpr"):
+                vmap = {v[1]: v[0] for v in s["rv"].get("variants", [])}
+                if "Expr" in vmap:
+                    tg = [bb for v, bb in t["targets"] if v == vmap["Expr"]]
+                    return tg if tg else [t["otherwise"]]
+    return None
 
 
 def _check_window(ctx, r, name):
